@@ -171,7 +171,7 @@ func updateEndPosition(mesgs []proto.Message, indices []int, ph placeholder, las
 			mesg      = &mesgs[indices[i]]
 			startTime = mesg.FieldValueByNum(ph.startTime).Uint32()
 		)
-		if startTime == basetype.Uint32Invalid || startTime > recTimestamp {
+		if recordIndex == -1 || startTime == basetype.Uint32Invalid || startTime > recTimestamp {
 			mesg.RemoveFieldByNum(ph.startPositionLat)
 			mesg.RemoveFieldByNum(ph.startPositionLong)
 			mesg.RemoveFieldByNum(ph.endPositionLat)
